@@ -551,6 +551,10 @@ def _fold_bound_aliases(fn) -> int:
     import copy as _copy
 
     def root(e):
+        # `set(nodes).issuperset`: a bound method of a set built from a name - as good as the name while the name's object is
+        # left alone (checked below: no re-assignment, no mutating call on it in the region)
+        if isinstance(e, ast.Attribute) and e.attr in ("issubset", "issuperset", "isdisjoint", "__contains__", "intersection") and isinstance(e.value, ast.Call) and isinstance(e.value.func, ast.Name) and e.value.func.id in ("set", "frozenset") and len(e.value.args) == 1 and not e.value.keywords:
+            e = e.value.args[0]
         while isinstance(e, ast.Attribute):
             e = e.value
         return e if isinstance(e, ast.Name) else None
@@ -582,6 +586,8 @@ def _fold_bound_aliases(fn) -> int:
                         clobbered = True
                     if isinstance(n, ast.Attribute) and isinstance(n.ctx, (ast.Store, ast.Del)) and norm_(n) in chain:
                         clobbered = True
+                    if isinstance(target.value, ast.Call) and isinstance(n, ast.Call) and isinstance(n.func, ast.Attribute) and isinstance(n.func.value, ast.Name) and n.func.value.id == r.id and n.func.attr in ("append", "extend", "add", "update", "remove", "discard", "pop", "clear", "insert", "sort"):
+                        clobbered = True  # the snapshot `set(x)` would differ from a later `set(x)`
             # a loop around the block may bring a later re-assignment of the object back in front of the calls
             if clobbered:
                 continue
